@@ -80,6 +80,20 @@ func casesC14(g *Gen) []*Case {
 		}
 		addRepeated("object_printing", newTree(), nil, opEvs(src, data), src)
 	}
+	// a name that is not bound, next to several bound names that resemble it (one letter more, one less, another
+	// case): the error is the same every time, whatever the evaluator looks up to word its message
+	{
+		data := gvMap("user", gvStr("u"), "users", gvList(gvStr("a")), "usr", gvInt(1), "User", gvStr("U"), "userr_", gvInt(2), "use", gvInt(3),
+			"title", gvStr("t"), "titles", gvInt(4), "titel", gvInt(5), "item", gvInt(6), "items", gvInt(7), "itm", gvInt(8))
+		for _, src := range []string{"{{ userr }}", "{{ usre }}", "{{ user.nosuch() }}", "{{ titl }}", "@if(itemz)a@end", "{{ iten + 1 }}", "@each(x in userss){{ x }}@end",
+			"{{ {a: userr, b: titl} }}", "{{ usr.nme }}", "{{ users.lenn() }}"} {
+			addRepeated("misspelt_name_among_similar_names", newTree(), nil, opEvs(src, data), src)
+		}
+		obj := gvMap("name", gvStr("n"), "names", gvInt(1), "nam", gvInt(2), "Name", gvInt(3), "namee", gvInt(4), "mane", gvInt(5))
+		for _, src := range []string{"{{ obj.nme }}", "{{ obj.naem }}", "{{ obj[\"nme\"] }}", "{{ obj.name.uper() }}"} {
+			addRepeated("misspelt_name_among_similar_names", newTree(), nil, opEvs(src, gvMap("obj", obj, "objs", gvInt(1), "ob", gvInt(2))), src)
+		}
+	}
 	// keys that differ only in letter case (or are prefixes of each other) print in one fixed order
 	{
 		obj := gvMap("id", gvInt(1), "ID", gvInt(2), "Id", gvInt(3), "iD", gvInt(4), "name", gvStr("n"), "Name", gvStr("N"), "NAME", gvStr("NN"), "nam", gvInt(0), "namee", gvInt(9))
